@@ -38,20 +38,25 @@ func (t *manualTimer) Stop() {
 		t.stopped[i] = true
 	}
 }
-func (t *manualTimer) pick(i int, allowStopped bool) func() {
+func (t *manualTimer) pick(i int, allowStopped bool) (func(), int) {
 	t.mu.Lock()
 	defer t.mu.Unlock()
 	if len(t.all) == 0 {
-		return nil
+		return nil, -1
 	}
 	if allowStopped {
-		return t.all[i%len(t.all)]
+		return t.all[i%len(t.all)], i % len(t.all)
 	}
 	j := len(t.all) - 1
 	if t.stopped[j] {
-		return nil
+		return nil, -1
 	}
-	return t.all[j]
+	return t.all[j], j
+}
+func (t *manualTimer) count() int {
+	t.mu.Lock()
+	defer t.mu.Unlock()
+	return len(t.all)
 }
 
 // ---------------------------------------------------------------- EventBatcher
@@ -106,7 +111,8 @@ func execEB(p ebProg, c *hx.Case) error {
 		token++
 		return nil
 	}
-	fire := func(step int, cb func(), why string) error {
+	armed := map[int]int64{} // timer callback -> token of the batch it was set for
+	fire := func(step int, cb func(), idx int, why string) error {
 		if cb == nil {
 			return nil
 		}
@@ -114,6 +120,11 @@ func execEB(p ebProg, c *hx.Case) error {
 		select {
 		case tok := <-b.BatchTimedOut:
 			timeouts++
+			// the time-out of a batch that has been flushed already flushes nothing,
+			// however late its callback runs
+			if set, ok := armed[idx]; ok && set < token && len(cur) > 0 && (int64(tok) == token || tok == batching.CurrentBatch) {
+				return hx.Errf("step %d %s: the time-out that was set for the batch with token %d, flushed long ago, announces token %d: it would flush the current batch (token %d, %d items)", step, why, set, tok, token, len(cur))
+			}
 			return flush(step, tok, why)
 		case <-time.After(10 * time.Second):
 			return &hx.Inconclusive{Why: "timer callback did not deliver a token"}
@@ -122,7 +133,11 @@ func execEB(p ebProg, c *hx.Case) error {
 	for step, op := range p.Ops {
 		switch op.Kind {
 		case "add":
+			before := tm.count()
 			b.Add(next)
+			if tm.count() > before {
+				armed[tm.count()-1] = token
+			}
 			added, cur = append(added, next), append(cur, next)
 			next++
 			if b.IsFull() { // what every caller does
@@ -144,11 +159,13 @@ func execEB(p ebProg, c *hx.Case) error {
 				return err
 			}
 		case "fire":
-			if err := fire(step, tm.pick(0, false), "time-out"); err != nil {
+			cb, idx := tm.pick(0, false)
+			if err := fire(step, cb, idx, "time-out"); err != nil {
 				return err
 			}
 		case "fireStale":
-			if err := fire(step, tm.pick(max(op.Arg, 0), true), "late time-out"); err != nil {
+			cb, idx := tm.pick(max(op.Arg, 0), true)
+			if err := fire(step, cb, idx, "late time-out"); err != nil {
 				return err
 			}
 		}
@@ -166,7 +183,7 @@ func execEB(p ebProg, c *hx.Case) error {
 }
 
 func TestPropEventBatcher(t *testing.T) {
-	hx.Run(t, hx.Spec{Prop: "C20", Rule: "Add/IsFull/Flush(current)/Flush(token current,stale,future)/timer expiry (current and already-stopped timers) with MaxSize 0..5 vs a list model; non-trivial = >=1 time-out flush, >=1 size flush and >=1 stale token"}, genEB, execEB)
+	hx.Run(t, hx.Spec{Prop: "C20", Rule: "Add/IsFull/Flush(current)/Flush(token current,stale,future)/timer expiry (current and already-stopped timers: a callback that had started cannot be recalled and runs late; the one of a batch flushed already must not announce the current batch) with MaxSize 0..5 vs a list model; non-trivial = >=1 time-out flush, >=1 size flush and >=1 stale token"}, genEB, execEB)
 }
 
 // ---------------------------------------------------------------- ReorderFetcher
@@ -286,7 +303,7 @@ func execRF(p rfProg, c *hx.Case) error {
 			rf.Add(ctx, next)
 			next++
 		case "fire":
-			if cb := tm.pick(0, false); cb != nil {
+			if cb, _ := tm.pick(0, false); cb != nil {
 				fires++
 				fireWG.Add(1)
 				go func() { defer fireWG.Done(); cb() }() // delivered to the fetcher's own time-out goroutine
